@@ -14,6 +14,14 @@ theorem respAB_of_nil (q : String) (ids : List String) (aOf bOf : String → Lis
   intro i hi
   simp [elemA, elemAB, hb i hi]
 
+/-- the calls of one request: one to `A`; one BATCH to `B` iff `B` owns a selected field and the list
+    is not empty -/
+def callsOf (c : PCtx) (A B T q : String) (fs : List FieldSpec) (ids : List String) : List Call :=
+  ⟨A, [rqOf c (rootStep A B T q fs) []]⟩ ::
+    (match fsB fs, ids with
+     | _ :: _, _ :: _ => [⟨B, batchB c B T q (fsB fs) ids⟩]
+     | _, _ => [])
+
 /-- **Stage 3 — execute**: depth 0 asks `A` for the list, depth 1 (if `B` owns a selected field and
     the list is not empty) asks `B` ONCE, with one lookup per distinct id; the result is the list
     under `q`, every element with the helper id, `A`'s answers, then `B`'s answers. -/
@@ -23,7 +31,7 @@ theorem stage_execute (h : Fam c A B T q fs) (down : Downstream) (ids : List Str
     (hA : down A [rqOf c (rootStep A B T q fs) []] = .ok [respA q ids aOf])
     (hB : fsB fs ≠ [] → ids ≠ [] → down B (batchB c B T q (fsB fs) ids) = .ok (answersB bOf ids))
     (hb0 : fsB fs = [] → ∀ i ∈ ids, bOf i = []) :
-    ∃ calls, execute c {} none down [rootStep A B T q fs] [] = .ok ⟨respAB q ids aOf bOf, calls⟩ := by
+    execute c {} none down [rootStep A B T q fs] [] = .ok ⟨respAB q ids aOf bOf, callsOf c A B T q fs ids⟩ := by
   have hd0 := depth0 c A B T q fs down ids aOf hA
   unfold execute
   simp only [List.map_cons, List.map_nil]
@@ -35,7 +43,8 @@ theorem stage_execute (h : Fam c A B T q fs) (down : Downstream) (ids : List Str
       simp [stepsDepth, stepDepth, rootStep, hfb, stepsB]
     rw [hdepth, execLoop]
     simp only [List.isEmpty_cons, Bool.false_eq_true, ↓reduceIte, bind, Except.bind, hd0, hfb, nextReqs, execLoop]
-    exact ⟨_, by rw [respAB_of_nil q ids aOf bOf (hb0 hfb)]⟩
+    rw [respAB_of_nil q ids aOf bOf (hb0 hfb)]
+    simp [callsOf, hfb]
   | cons b0 bs =>
     have hdepth : stepsDepth [rootStep A B T q fs] = 2 := by
       simp [stepsDepth, stepDepth, rootStep, hfb, stepsB]
@@ -45,7 +54,7 @@ theorem stage_execute (h : Fam c A B T q fs) (down : Downstream) (ids : List Str
     | nil =>
       rw [execLoop]
       simp only [reqsFrom_nil, List.isEmpty_nil, ↓reduceIte]
-      exact ⟨_, rfl⟩
+      simp [callsOf, hfb, respA, respAB]
     | cons i0 is =>
       have hB' := hB (by rw [hfb]; simp) (by simp)
       rw [hfb] at hB'
@@ -53,7 +62,7 @@ theorem stage_execute (h : Fam c A B T q fs) (down : Downstream) (ids : List Str
       have hne : (reqsFrom B T q (b0 :: bs) 0 (i0 :: is)).isEmpty = false := by simp [reqsFrom_cons]
       simp only [hne, Bool.false_eq_true, ↓reduceIte, bind, Except.bind,
         depth1 h down (b0 :: bs) i0 is aOf bOf _ hq1 hq2 hids hB', execLoop]
-      exact ⟨_, rfl⟩
+      simp [callsOf, hfb]
 
 /-- scrubbing one list element: exactly the helper `id` is removed, and the element is not empty -/
 theorem clean_elem (T i : String) (d : List (String × J))
@@ -110,10 +119,9 @@ theorem stage_gateway (h : Fam c A B T q fs) (down : Downstream) (ids : List Str
     (hB : fsB fs ≠ [] → ids ≠ [] → down B (batchB c B T q (fsB fs) ids) = .ok (answersB bOf ids))
     (hb0 : fsB fs = [] → ∀ i ∈ ids, bOf i = [])
     (hd : ∀ i ∈ ids, GoodElem (aOf i ++ bOf i)) :
-    ∃ calls, gateway c {} ⟨.query, "", [], [QL T q fs]⟩ none down
-      = .ok ⟨some [(q, .arr (ids.map (fun i => J.obj (aOf i ++ bOf i))))], [], calls⟩ := by
-  obtain ⟨calls, hex⟩ := stage_execute h down ids aOf bOf hq1 hq2 hids hA hB hb0
-  refine ⟨calls, ?_⟩
+    gateway c {} ⟨.query, "", [], [QL T q fs]⟩ none down
+      = .ok ⟨some [(q, .arr (ids.map (fun i => J.obj (aOf i ++ bOf i))))], [], callsOf c A B T q fs ids⟩ := by
+  have hex := stage_execute h down ids aOf bOf hq1 hq2 hids hA hB hb0
   unfold gateway plan
   simp only [stage_sanitize h, bind, Except.bind, stage_plan h, hex, id]
   have := stage_scrub T q ids (fun i => aOf i ++ bOf i) hd
